@@ -3,6 +3,7 @@
 From V.lib Require Import Base.
 From V.c14 Require Import C14Spec C14Model C14WordProofs C14ScanProofs C14ConvProofs C14WalkProofs C14StreamProofs.
 From V.c14 Require Import C14HevcSpec C14HevcModel C14HevcPackProofs C14HevcProofs C14AvcModel C14AvcProofs.
+From V.c14 Require Import C14RecogModel C14RecogProofs.
 
 (* the word bit-trick of hasZeroByte is exactly "some byte of the word is zero", for every 8-byte
    word, whichever byte order the load uses *)
@@ -279,3 +280,114 @@ Example C14_avc_gpsb_ex :
   wf_units us = true /\
   avc_GetParameterSetsFromByteStream (stream us) = Ok ([[103;66;0;30]], [[104;206;60;128]; [104;1]])%N.
 Proof. vm_compute. split; reflexivity. Qed.
+
+(* ------------------------------------------------------------------ the property over BYTE STRINGS *)
+(* C14RecogModel.v makes the property's quantifier ("every well-formed Annex B stream") executable: unstream d
+   cuts d at the start codes of the byte-by-byte scan, wf_stream d checks that there is at least one unit, that
+   every unit is well formed and that d is nothing but those units behind their start codes.  The recogniser is
+   EXACT: it accepts precisely the streams of non-empty lists of well-formed units, reads back the generating
+   list (start-code lengths included), so that list -- "the NAL units between the start codes" -- is unique. *)
+Theorem C14_stream_recogniser_exact :
+  (forall d : list N, wf_stream d = true <-> exists us, us <> [] /\ wf_units us = true /\ stream us = d) /\
+  (forall us, wf_units us = true -> unstream (stream us) = us) /\
+  (forall us vs, wf_units us = true -> wf_units vs = true -> stream us = stream vs -> us = vs).
+Proof. exact (conj wf_stream_iff (conj unstream_stream stream_injective)). Qed.
+Print Assumptions C14_stream_recogniser_exact.
+
+(* every clause of the property about Annex B streams, for EVERY byte string the recogniser accepts, in terms
+   of the units read from the bytes (no generating list in the statement) *)
+Theorem C14_stream_bytes : forall d : list N, wf_stream d = true ->
+  let us := unstream d in
+  let ns := map snd us in
+  us <> [] /\ wf_units us = true /\ stream us = d /\
+  get_start_code_positions d = Ok (expected_scs 0 us, min_sc_len (expected_scs 0 us)) /\
+  naive_scan d = expected_scs 0 us /\
+  (fit_units us = true ->
+     to_nalu_sample d = Ok (sample ns) /\
+     (do s <- to_nalu_sample d; to_byte_stream s) = Ok (stream4 ns)) /\
+  extract_nalus_from_byte_stream d = Ok ns /\
+  avc_get_first_video_nalu d = Ok (first_video avc_type avc_is_video ns) /\
+  avc_GetParameterSetsFromByteStream d =
+    Ok (of_type avc_type 7 (before_video avc_type avc_is_video ns),
+        of_type avc_type 8 (before_video avc_type avc_is_video ns)) /\
+  (forall want stop, avc_extract_nalus_of_type want stop d =
+     Ok (of_type avc_type want (if stop then before_video avc_type avc_is_video ns else ns))) /\
+  (hevc_stream_units us = true ->
+     hevc_GetParameterSetsFromByteStream d =
+       Ok (u_of_type hevc_unit_type 32 (u_before_video hevc_unit_type hevc_vcl ns),
+           u_of_type hevc_unit_type 33 (u_before_video hevc_unit_type hevc_vcl ns),
+           u_of_type hevc_unit_type 34 (u_before_video hevc_unit_type hevc_vcl ns)) /\
+     (forall want stop, hevc_ExtractNalusOfTypeFromByteStream want d stop =
+        Ok (u_of_type hevc_unit_type want (if stop then u_before_video hevc_unit_type hevc_vcl ns else ns)))).
+Proof. exact stream_bytes. Qed.
+Print Assumptions C14_stream_bytes.
+
+(* accepted: a mixed 3/4-byte stream, and 67 00 | 00 00 01 read as the unit 67 behind a 4-byte start code (one
+   zero byte in front of 00 00 01 always belongs to the start code); rejected: a byte in front of the first
+   start code, a unit that would end in 00, an empty unit between two start codes, no start code at all *)
+Example C14_stream_bytes_ex :
+  let d := [0;0;0;1;103;66;0;3;1; 0;0;1;104;206;0;0;3;2;128; 0;0;0;1;101]%N in
+  wf_stream d = true /\
+  unstream d = [(true, [103;66;0;3;1]); (false, [104;206;0;0;3;2;128]); (true, [101])]%N /\
+  fit_units (unstream d) = true /\
+  wf_stream (9 :: d)%N = false /\
+  unstream [0;0;1;103;0; 0;0;1;104]%N = [(false, [103]); (true, [104])]%N /\
+  wf_stream [0;0;1;103;0; 0;0;1;104]%N = true /\
+  wf_stream [0;0;1;103;0;0; 0;0;1;104]%N = false /\
+  wf_stream [0;0;1; 0;0;1;104]%N = false /\
+  wf_stream [1;2;3;4;5]%N = false /\ wf_stream [] = false.
+Proof. vm_compute. repeat split; reflexivity. Qed.
+
+(* the same for length-prefixed samples: unsample follows the 4-byte big-endian length fields, wf_sample accepts
+   precisely the samples of non-empty lists of non-empty units shorter than 2^32, and the unit list is unique *)
+Theorem C14_sample_recogniser_exact :
+  (forall s : list N, wf_sample s = true <-> exists ns, ns <> [] /\ walkable ns = true /\ sample ns = s) /\
+  (forall ns, forallb fits32 ns = true -> unsample (sample ns) = Some ns) /\
+  (forall ns ms, forallb fits32 ns = true -> forallb fits32 ms = true -> sample ns = sample ms -> ns = ms).
+Proof. exact (conj wf_sample_iff (conj unsample_sample sample_injective)). Qed.
+Print Assumptions C14_sample_recogniser_exact.
+
+Theorem C14_sample_bytes : forall s : list N, wf_sample s = true ->
+  let ns := unsample_units s in
+  ns <> [] /\ walkable ns = true /\ sample ns = s /\
+  get_nalus_from_sample s = Ok ns /\
+  to_byte_stream s = Ok (stream4 ns) /\
+  avc_find_nalu_types s = Ok (map (utype avc_type) ns) /\
+  avc_find_nalu_types_up_to_video s = Ok (types_upto avc_type avc_is_video ns) /\
+  (forall want, avc_contains_nalu_type s want = Ok (has_type avc_type want ns)) /\
+  avc_is_idr_sample s = Ok (has_type avc_type 5 ns) /\
+  avc_has_parameter_sets s =
+    Ok (existsb (fun t => N.eqb t 7) (types_upto avc_type avc_is_video ns)
+        && existsb (fun t => N.eqb t 8) (types_upto avc_type avc_is_video ns)) /\
+  avc_get_parameter_sets s =
+    Ok ([], of_type avc_type 7 (before_video avc_type avc_is_video ns),
+            of_type avc_type 8 (before_video avc_type avc_is_video ns)) /\
+  (hevc_units ns = true ->
+     let ut := hevc_unit_type in
+     hevc_FindNaluTypes s = Ok (u_types ut ns) /\
+     hevc_FindNaluTypesUpToFirstVideoNalu s = Ok (u_types_upto ut hevc_vcl ns) /\
+     (forall want, hevc_ContainsNaluType s want = Ok (u_has ut (fun t => N.eqb t want) ns)) /\
+     hevc_IsRAPSample s = Ok (u_has ut hevc_irap ns) /\
+     hevc_IsIDRSample s = Ok (u_has ut hevc_idr ns) /\
+     hevc_HasParameterSets s =
+       Ok (existsb (fun t => N.eqb t 32) (u_types_upto ut hevc_vcl ns)
+           && existsb (fun t => N.eqb t 33) (u_types_upto ut hevc_vcl ns)
+           && existsb (fun t => N.eqb t 34) (u_types_upto ut hevc_vcl ns)) /\
+     hevc_GetParameterSets s =
+       Ok (u_of_type ut 32 (u_before_video ut hevc_vcl ns),
+           u_of_type ut 33 (u_before_video ut hevc_vcl ns),
+           u_of_type ut 34 (u_before_video ut hevc_vcl ns))).
+Proof. exact sample_bytes. Qed.
+Print Assumptions C14_sample_bytes.
+
+(* accepted: VPS SPS PPS IDR (HEVC headers); rejected: a length field one too large, a zero length field,
+   three stray bytes behind the last unit *)
+Example C14_sample_bytes_ex :
+  let s := [0;0;0;3;64;1;12; 0;0;0;4;66;1;1;96; 0;0;0;3;68;1;193; 0;0;0;4;38;1;175;6]%N in
+  wf_sample s = true /\
+  unsample_units s = [[64;1;12]; [66;1;1;96]; [68;1;193]; [38;1;175;6]]%N /\
+  hevc_units (unsample_units s) = true /\
+  wf_sample [0;0;0;3;64;1]%N = false /\
+  wf_sample [0;0;0;0; 0;0;0;1;9]%N = false /\
+  wf_sample [0;0;0;1;9; 1;2;3]%N = false /\ wf_sample [] = false.
+Proof. vm_compute. repeat split; reflexivity. Qed.
